@@ -85,6 +85,9 @@ _MISSING = [
 ]
 
 
+_MISSING_VALUE = re.compile(r"cannot find value `([A-Z][A-Z0-9_]*)` in this scope")
+
+
 def missing_names(error_messages):
     """helper names mentioned by `cannot find function `X` in this scope` / `no method named `X` found ...` / `no function or
     associated item named `X` found ...` / `no associated function or constant named `X` found ...`; in order, no duplicates"""
@@ -96,6 +99,10 @@ def missing_names(error_messages):
             for g in rx.finditer(m):
                 if g.group(1) not in out:
                     out.append(g.group(1))
+        # an ALL_CAPS value: a module-level `const` / `static` the edit introduced (find_const / inline_const)
+        for g in _MISSING_VALUE.finditer(m):
+            if g.group(1) not in out and any(c.isalpha() for c in g.group(1)):
+                out.append(g.group(1))
     return out
 
 
@@ -1309,14 +1316,25 @@ class ConstDef:
         self.caller_container = caller_container
         st = sig(lex(text))
         i = 0
-        while i < len(st) and st[i].text != "const":
+        while i < len(st) and st[i].text not in ("const", "static"):
             if st[i].text == "(":
                 i = match_close(st, i)
             i += 1
         if i + 3 >= len(st) or st[i + 1].kind != "ident" or st[i + 2].text != ":" or st[-1].text != ";":
             raise CannotInline("constant declaration not understood")
+        self.is_static = st[i].text == "static"
+        if self.is_static:
+            # a `static` read like a constant: immutable, no interior mutability, initialiser a literal / constant expression
+            ids = _idents(st, i, len(st))
+            if st[i + 1].text == "mut" or any(t.text in ("{", "!") for t in st[i:]) or \
+                    any(any(w in x for w in ("Mutex", "RwLock", "Atomic", "Cell", "Lazy", "Once", "Lock")) for x in ids):
+                raise CannotInline("static is mutable, lazily initialised or has interior mutability")
         self.name = st[i + 1].text
         self.decl = text[st[i].start:]        # `const NAME: T = EXPR;` without visibility
+        if self.is_static:
+            # Verus has no function-local `static` ("internal item statements"); an immutable static without interior mutability and
+            # with a constant initialiser is, read by value, the constant of the same declaration: only the keyword changes
+            self.decl = "const" + text[st[i].end:]
         if "Self" in _idents(st, i, len(st)):
             raise CannotInline("constant mentions `Self`")
         self.kind = "free" if container is None else "assoc"
@@ -1334,7 +1352,7 @@ def find_const(repo, path, name, container=None):
     mods = [it for it in items if it.kind == "mod"]
     out = []
     for it in items:
-        if it.kind != "const" or it.name != name:
+        if it.kind not in ("const", "static") or it.name != name:
             continue
         a = " ".join(t.text for t in sig(lex(src[it.attrs_start:it.start])))
         if "cfg (" in a or any(m.start <= it.start and it.end <= m.end and (m.name == "tests" or "cfg ( test )" in " ".join(t.text for t in sig(lex(src[m.attrs_start:m.start])))) for m in mods):
@@ -1372,8 +1390,11 @@ def inline_const(item_text, cdef, log, at_fn_start=True):
             continue
         if k > 0 and st[k - 1].text == "." and not (k > 1 and st[k - 2].text == "."):
             continue
-        if st[k - 1].text == "const":
+        if st[k - 1].text in ("const", "static"):
             raise CannotInline("the calling item declares its own `const %s`" % cdef.name)
+        if st[k - 1].text == "*" and not (st[k - 2].kind in ("ident", "num") and st[k - 2].text not in ("return", "in", "as", "if", "else", "match") or st[k - 2].text in (")", "]")):
+            # `*NAME`: a deref of a lazy / configurable constant (rule R6, `//@ config`), a different shape - left alone
+            raise CannotInline("`*%s` is a deref of a lazy/configurable constant (rule R6), not a plain constant" % cdef.name)
         nxt = st[k + 1].text if k + 1 < len(st) else ""
         if nxt in ("(", "!", "{", "|") or _path_sep_after(st, k) or (nxt == ":" and st[k - 1].text in ("{", ",")) or (nxt == "=" and st[k + 2].text == ">"):
             raise CannotInline("`%s` is used other than as a constant value" % cdef.name)
@@ -1413,7 +1434,7 @@ def inline_const(item_text, cdef, log, at_fn_start=True):
         out.append(r)
         pos = b
     out.append(item_text[pos:])
-    key = "R9h inline const %s at %d site(s)" % (cdef.name, len(uses))
+    key = "R9h inline %s %s at %d site(s)" % ("static (re-declared as const)" if getattr(cdef, "is_static", False) else "const", cdef.name, len(uses))
     log[key] = log.get(key, 0) + 1
     return "".join(out)
 
@@ -1594,7 +1615,7 @@ def _uses_const(text, name):
     used = False
     for k, t in enumerate(st):
         if t.kind == "ident" and t.text == name:
-            if k > 0 and st[k - 1].text == "const":
+            if k > 0 and st[k - 1].text in ("const", "static"):
                 return False
             if not (k > 0 and st[k - 1].text == "."):
                 used = True
